@@ -328,6 +328,12 @@ func runC11(r *rt.Runner) {
 		checkStartCase(c, env, "\n%!\n7", false)
 		checkStartCase(c, env, "%\n!7", false)
 		checkStartCase(c, env, "%%!\n7", false)
+		// the first call passes the check and then fails: the check has been
+		// passed all the same, and is not repeated
+		for _, t := range []string{"%!\n1 (a) add", "%!\nexit", "%!\nnosuchname", "%!\ncurrentfile closefile", "%! 1 2\n{ 1 dict begin } loop", "%!PS\n1 2 stop 3", "%!\n16777216 array", "%!\n1 0 idiv",
+			"%!\n<zz>", "%!\n)", "%!\n1 2 3 currentfile eexec\n" + hexSection("4 5 nosuchname "), "%!"} {
+			checkStartCase(c, env, t, true)
+		}
 	})
 }
 
@@ -446,6 +452,21 @@ var c11Shapes = []struct {
 	{"string-maxint", "9223372036854775807 string", []string{"limitcheck", "VMerror"}},
 	{"dict-maxint", "9223372036854775807 dict", []string{"limitcheck", "VMerror"}},
 	{"array-in-loop", "{ 16777216 array } loop", []string{"limitcheck", "VMerror"}},
+	// sizes whose product with an element size wraps around 2^64 to something small
+	{"array-2^60", "1152921504606846976 array", []string{"limitcheck", "VMerror"}},
+	{"dict-2^60", "1152921504606846976 dict", []string{"limitcheck", "VMerror"}},
+	{"string-2^60", "1152921504606846976 string", []string{"limitcheck", "VMerror"}},
+	{"array-2^61+5", "2305843009213693957 array", []string{"limitcheck", "VMerror"}},
+	{"dict-2^61", "2305843009213693952 dict", []string{"limitcheck", "VMerror"}},
+	{"array-2^62", "4611686018427387904 array", []string{"limitcheck", "VMerror"}},
+	{"dict-2^62+100", "4611686018427387914 dict", []string{"limitcheck", "VMerror"}},
+	{"string-2^62", "4611686018427387904 string", []string{"limitcheck", "VMerror"}},
+	{"array-2^56", "72057594037927936 array", []string{"limitcheck", "VMerror"}},
+	{"dict-2^59+1", "576460752303423489 dict", []string{"limitcheck", "VMerror"}},
+	{"array-2^32", "4294967296 array", []string{"limitcheck", "VMerror"}},
+	{"dict-2^32+7", "4294967303 dict", []string{"limitcheck", "VMerror"}},
+	{"string-2^32", "4294967296 string", []string{"limitcheck", "VMerror"}},
+	{"array-radix-2^60", "16#1000000000000000 array", []string{"limitcheck", "VMerror"}},
 	// the dictionary stack is full when eexec pushes systemdict on top of it; begin must still refuse
 	{"begin-loop-inside-eexec-on-full-dictstack", "18 { userdict begin } repeat currentfile eexec\n" + hexSection("{ userdict begin } loop "), []string{"dictstackoverflow"}},
 	{"begin-loop-inside-eexec", "currentfile eexec\n" + hexSection("{ 1 dict begin } loop "), []string{"dictstackoverflow"}},
